@@ -30,7 +30,7 @@ TECHNIQUE = "runtime oracle monitor (pair enumeration, bit-identity) on exact an
 
 def generate(tier, seed):
     rng = np.random.default_rng([seed, 8])
-    n = {"quick": 50, "thorough": 400}[tier]
+    n = {"quick": 50, "thorough": 3000}[tier]
     nmax = {"quick": 40, "thorough": 90}[tier]
     cases = []
     for rep in range(n):
